@@ -267,7 +267,7 @@ def any_bad_mf(costs):
 
 def model(ops):
     """the same operation lines evaluated by the Lean model (native driver)"""
-    return common.run_parallel(common.lean_bin(), ops)
+    return common.run_parallel(common.lean_bin(), [o if gen.cap_dense(o) == o else "skip" for o in ops])
 
 
 def shift_task(jobsets, i, A):
@@ -334,6 +334,262 @@ def gen_sched_system(rng, policy):
     return tasks
 
 
+class Unsupported(Exception):
+    pass
+
+
+def _p_list(t, i):
+    n = int(t[i])
+    return [int(x) for x in t[i + 1:i + 1 + n]], i + 1 + n
+
+
+def parse_arr(t, i):
+    """inverse of gen.arr_str for the models whose histories the simulator can generate"""
+    k = t[i]
+    if k == "never":
+        return ("never",), i + 1
+    if k == "per":
+        return ("per", int(t[i + 1])), i + 2
+    if k == "spo":
+        return ("spo", int(t[i + 1]), int(t[i + 2])), i + 3
+    if k in ("cur", "xcur"):
+        v, i2 = _p_list(t, i + 1)
+        return (k, v), i2
+    if k in ("prop", "wj"):
+        a, i2 = parse_arr(t, i + 2)
+        return (k, int(t[i + 1]), a), i2
+    if k in ("agg", "sli"):
+        n = int(t[i + 1])
+        xs = []
+        i2 = i + 2
+        for _ in range(n):
+            a, i2 = parse_arr(t, i2)
+            xs.append(a)
+        return (k, xs), i2
+    if k == "sum":
+        a, i2 = parse_arr(t, i + 1)
+        b, i3 = parse_arr(t, i2)
+        return ("sum", a, b), i3
+    if k == "box":
+        a, i2 = parse_arr(t, i + 1)
+        return ("box", a), i2
+    raise Unsupported(k)
+
+
+def parse_cost(t, i):
+    if t[i] == "sc":
+        return ("sc", int(t[i + 1])), i + 2
+    raise Unsupported(t[i])
+
+
+def parse_rb_flat(t, i):
+    """a request bound as a flat list of (arrival model, scalar cost)"""
+    k = t[i]
+    if k == "rbf":
+        a, i2 = parse_arr(t, i + 1)
+        c, i3 = parse_cost(t, i2)
+        return [(a, c[1])], i3
+    if k in ("ragg", "rsli"):
+        n = int(t[i + 1])
+        out = []
+        i2 = i + 2
+        for _ in range(n):
+            x, i2 = parse_rb_flat(t, i2)
+            out += x
+        return out, i2
+    if k == "rbox":
+        return parse_rb_flat(t, i + 1)
+    raise Unsupported(k)
+
+
+def parse_sched_op(op):
+    """(kind, tasks, index of the analysed task) of an FP / EDF analysis operation line, in the
+    form used by `schedule_search`; raises Unsupported for systems the simulator cannot render
+    (non-scalar costs, aggregated task under analysis, derived arrival models)"""
+    t = op.split()
+    kind = t[0]
+    i = 1
+    tasks = []
+    if kind in ("fp_p", "fp_fl"):
+        tua, i = parse_rb_flat(t, i)
+        if len(tua) != 1:
+            raise Unsupported("aggregate tua")
+        own = {"arr": tua[0][0], "C": tua[0][1], "seg": 1}
+        B = 0
+        if kind == "fp_fl":
+            B = int(t[i]); i += 1
+        n = int(t[i]); i += 1
+        hp = []
+        for _ in range(n):
+            x, i = parse_rb_flat(t, i)
+            hp += [{"arr": a, "C": c, "seg": 1} for a, c in x]
+        tasks = hp + [own]
+        idx = len(hp)
+    elif kind in ("fp_np", "fp_lp"):
+        a, i = parse_arr(t, i)
+        C = int(t[i]); i += 1
+        last = C
+        if kind == "fp_lp":
+            last = int(t[i]); i += 1
+        B = int(t[i]); i += 1
+        n = int(t[i]); i += 1
+        hp = []
+        for _ in range(n):
+            x, i = parse_rb_flat(t, i)
+            hp += [{"arr": a2, "C": c, "seg": 1} for a2, c in x]
+        tasks = hp + [{"arr": a, "C": C, "seg": last}]
+        idx = len(hp)
+    elif kind in ("edf_p", "edf_fl"):
+        tua, i = parse_rb_flat(t, i)
+        if len(tua) != 1:
+            raise Unsupported("aggregate tua")
+        D = int(t[i]); i += 1
+        n = int(t[i]); i += 1
+        tasks = [{"arr": tua[0][0], "C": tua[0][1], "seg": 1, "D": D}]
+        for _ in range(n):
+            x, i = parse_rb_flat(t, i)
+            Do = int(t[i]); i += 1
+            sg = 1
+            if kind == "edf_fl":
+                sg = int(t[i]); i += 1
+            tasks += [{"arr": a, "C": c, "seg": max(sg, 1), "D": Do} for a, c in x]
+        idx, B = 0, 0
+    elif kind == "edf_np":
+        a, i = parse_arr(t, i)
+        C = int(t[i]); D = int(t[i + 1]); n = int(t[i + 2]); i += 3
+        tasks = [{"arr": a, "C": C, "seg": C, "D": D}]
+        for _ in range(n):
+            a2, i = parse_arr(t, i)
+            tasks.append({"arr": a2, "C": int(t[i]), "seg": int(t[i]), "D": int(t[i + 1])}); i += 2
+        idx, B = 0, 0
+    elif kind == "edf_lp":
+        a, i = parse_arr(t, i)
+        C = int(t[i]); D = int(t[i + 1]); last = int(t[i + 2]); n = int(t[i + 3]); i += 4
+        tasks = [{"arr": a, "C": C, "seg": last, "D": D}]
+        for _ in range(n):
+            x, i = parse_rb_flat(t, i)
+            Do = int(t[i]); sg = int(t[i + 1]); i += 2
+            tasks += [{"arr": a2, "C": c, "seg": max(sg, 1), "D": Do} for a2, c in x]
+        idx, B = 0, 0
+    else:
+        raise Unsupported(kind)
+    if any(tk["C"] < 1 for tk in tasks):
+        raise Unsupported("zero cost")
+    if kind.startswith("fp") and B > 0:
+        # a lower-priority task whose longest non-preemptive segment is B + 1 (blocking bound B)
+        tasks.append({"arr": ("per", 10 ** 6), "C": B + 1, "seg": B + 1})
+    return kind, tasks, idx
+
+
+def schedule_search(kind, tasks, i, R, rng, reps, op, r, cex, nontrivial):
+    """simulate legal schedules of the task set (FP: list order = priority; EDF: key 'D') under
+    the preemption model `kind`; append a counterexample when a job of task `i` exceeds R.
+    Returns the worst response time seen."""
+    edf = kind.startswith("edf")
+    worst = 0
+    nlp = len(tasks) - 1 - i
+    for rep in reps:
+        shiftA = None
+        early = 0
+        lo, hi = 2, 9
+        adversarial = rng.random() < 0.3
+        if isinstance(rep, tuple):
+            shiftA, early, rep = rep[1], rep[2], 5
+            lo, hi = 6, 18
+            adversarial = rng.random() < 0.7
+        elif rep >= 4:
+            shiftA, early = rng.randint(0, 30), rng.randint(0, 1)
+        mode = "wcet" if rep != 3 else "random"
+        jobsets = [sim.task_jobs(t["arr"], ("sc", t["C"]), rng.randint(lo, hi), rng, mode) for t in tasks]
+
+        def start_early(js_all):
+            if edf:
+                if len(tasks) > 1:
+                    late = max(range(len(tasks)), key=lambda ti: tasks[ti]["D"])
+                    return [[(rl + (0 if ti == late else 1), c) for rl, c in js] for ti, js in enumerate(js_all)]
+                return js_all
+            if nlp > 0:
+                return [[(rl + (0 if ti > i else 1), c) for rl, c in js] for ti, js in enumerate(js_all)]
+            return js_all
+        if shiftA is not None:
+            jobsets = shift_task(jobsets, i, shiftA)
+            if early:
+                jobsets = start_early(jobsets)
+        elif rep % 2 == 0:
+            jobsets = sync(jobsets)
+            if rep == 0:
+                jobsets = start_early(jobsets)
+        jobs = []
+        for ti, js in enumerate(jobsets):
+            for rl, c in js:
+                t = tasks[ti]
+                if kind.endswith("_p"):
+                    npset = set()
+                elif kind.endswith("_np"):
+                    npset = sim.make_np(c, "np", 0, rng)
+                elif kind.endswith("_lp"):
+                    npset = sim.make_np(c, "lp", t["seg"], rng, last=(t["seg"] if ti == i else None))
+                else:
+                    npset = sim.make_np(c, "fl", t["seg"], rng)
+                jobs.append({"rel": rl, "cost": c, "np": npset, "task": ti, "dl": rl + t.get("D", 0)})
+        if not any(j["task"] == i for j in jobs):
+            continue
+        if edf:
+            if adversarial:
+                # ties among equal absolute deadlines consistently broken against the analysed task
+                rts = sim.simulate(jobs, lambda j: (j["dl"], 1 if j["task"] == i else 0), rng)
+            else:
+                rts = sim.simulate(jobs, lambda j: j["dl"], rng)
+        else:
+            jobs.sort(key=lambda j: (j["task"], j["rel"]))
+            for idx, j in enumerate(jobs):
+                j["idx"] = idx
+            rts = sim.simulate(jobs, lambda j: (j["task"], j["idx"]), rng)
+        nontrivial.add((op, rep, shiftA, len(jobs)))
+        bad = False
+        for j, rt in zip(jobs, rts):
+            if j["task"] != i:
+                continue
+            if rt is None or rt > R:
+                cex.append({"kind": ("edf" if edf else "fp") + "_bound_exceeded", "op": op, "impl": r, "observed_response": rt,
+                            "variant": kind, "analysed_task": i,
+                            "jobs": [(x["rel"], x["cost"], x["task"], sorted(x["np"])) for x in jobs],
+                            "multiframe_not_accumulatively_monotonic": False})
+                bad = True
+                break
+            worst = max(worst, rt)
+        if bad:
+            break
+    return worst
+
+
+ALL_OFFSETS = [("A", a, b) for a in range(0, 41) for b in (0, 1) for _rep in range(3)]
+
+
+def guided_from_correspondence(ctx, kinds, rng, cex, nontrivial):
+    """when the correspondence broke on an analysis operation and the real code claims a
+    SMALLER bound than the model (proved safe), look for a schedule that exceeds the real bound"""
+    n = 0
+    for d in ((ctx.get("corr") or {}).get("disagreements") or []):
+        op, ri, rm = d.get("op", ""), d.get("impl", ""), d.get("model", "")
+        if op.split()[:1] == [] or op.split()[0] not in kinds or not ri.startswith("ok "):
+            continue
+        if rm.startswith("ok ") and int(rm.split()[1]) <= int(ri.split()[1]):
+            continue
+        try:
+            kind, tasks, idx = parse_sched_op(op)
+        except (Unsupported, ValueError, IndexError):
+            continue
+        n += 1
+        if n > 40:
+            break
+        before = len(cex)
+        schedule_search(kind, tasks, idx, int(ri.split()[1]), rng, list(range(6)) + ALL_OFFSETS, op, ri, cex, nontrivial)
+        if len(cex) > before:
+            cex[-1]["found_by"] = "search guided by a correspondence disagreement (model: %s)" % rm
+    return n
+
+
 def falsify_C01(ctx):
     rng = random.Random(ctx["seed"] * 7919 + 1)
     n = 300 if ctx["tier"] == "quick" else 20000
@@ -367,64 +623,21 @@ def falsify_C01(ctx):
         if not r.startswith("ok "):
             continue
         R = int(r.split()[1])
-        worst = 0
         reps = list(range(6))
         mres = model([op])[0]
         if mres.startswith("ok ") and int(mres.split()[1]) > R:
             # the model (proved safe and equal to the all-offset evaluation) claims a larger bound:
             # search the schedules around every offset for a concrete violation
             guided += 1
-            reps += [("A", a, b) for a in range(0, 41) for b in (0, 1)]
-        for rep in reps:
-            shiftA = None
-            if isinstance(rep, tuple):
-                shiftA, early, rep = rep[1], rep[2], 5
-            elif rep >= 4:
-                shiftA, early = rng.randint(0, 30), rng.randint(0, 1)
-            mode = "wcet" if rep != 3 else "random"
-            jobsets = [sim.task_jobs(t["arr"], ("sc", t["C"]), rng.randint(2, 9), rng, mode) for t in tasks]
-            if shiftA is not None:
-                jobsets = shift_task(jobsets, i, shiftA)
-                if lp and early:
-                    jobsets = [[(rl + (0 if ti > i else 1), c) for rl, c in js] for ti, js in enumerate(jobsets)]
-            elif rep % 2 == 0:
-                jobsets = sync(jobsets)
-                if lp and rep == 0:
-                    # a lower-priority job starts one tick before everyone else
-                    jobsets = [[(rl + (0 if ti > i else 1), c) for rl, c in js] for ti, js in enumerate(jobsets)]
-            jobs = []
-            for ti, js in enumerate(jobsets):
-                for rl, c in js:
-                    t = tasks[ti]
-                    if kind == "fp_p":
-                        npset = set()
-                    elif kind == "fp_np":
-                        npset = sim.make_np(c, "np", 0, rng)
-                    elif kind == "fp_lp":
-                        npset = sim.make_np(c, "lp", t["seg"], rng, last=(t["seg"] if ti == i else None))
-                    else:
-                        npset = sim.make_np(c, "fl", t["seg"], rng)
-                    jobs.append({"rel": rl, "cost": c, "np": npset, "task": ti})
-            if not any(j["task"] == i for j in jobs):
-                continue
-            jobs.sort(key=lambda j: (j["task"], j["rel"]))
-            for idx, j in enumerate(jobs):
-                j["idx"] = idx
-            rts = sim.simulate(jobs, lambda j: (j["task"], j["idx"]), rng)
-            nontrivial.add((op, rep, shiftA, len(jobs)))
-            for j, rt in zip(jobs, rts):
-                if j["task"] != i:
-                    continue
-                if rt is None or rt > R:
-                    cex.append({"kind": "fp_bound_exceeded", "op": op, "impl": r, "observed_response": rt, "variant": kind,
-                                "jobs": [(x["rel"], x["cost"], x["task"], sorted(x["np"])) for x in jobs],
-                                "multiframe_not_accumulatively_monotonic": False})
-                    break
-                worst = max(worst, rt)
+            reps += ALL_OFFSETS
+        # fully non-preemptive lower-priority jobs for the NP analysis
+        sim_tasks = [dict(t, seg=(t["C"] if kind == "fp_np" else t["seg"])) for t in tasks]
+        worst = schedule_search(kind, sim_tasks, i, R, rng, reps, op, r, cex, nontrivial)
         if len(samples) < 4 and worst > 0 and len(tasks) >= 2:
             samples.append({"op": op, "bound": R, "worst_simulated_response": worst})
+    guided += guided_from_correspondence(ctx, ("fp_p", "fp_np", "fp_lp", "fp_fl"), rng, cex, nontrivial)
     return {"cases": cases, "nontrivial": len(nontrivial),
-            "rule": "random task sets with distinct priorities x analysed priority level x the four preemption models; blocking bound = longest lower-priority segment - 1; dense admissible releases (synchronous, phased, a lower-priority job started one tick earlier), WCET and random execution times, random legal placement of non-preemptive regions and random tie-breaks; simulated response times of the analysed task vs the real bound; non-trivial = distinct (system, scenario)",
+            "rule": "random task sets with distinct priorities x analysed priority level x the four preemption models; blocking bound = longest lower-priority segment - 1; dense admissible releases (synchronous, phased, a lower-priority job started one tick earlier, the analysed task delayed by an offset), WCET and random execution times, random legal placement of non-preemptive regions and random tie-breaks; simulated response times of the analysed task vs the real bound; when the model or a correspondence disagreement indicates a smaller real bound, every offset 0..40 is searched; non-trivial = distinct (system, scenario)",
             "counterexamples": cex, "samples": samples, "distribution": dict(dist, model_guided_searches=guided)}
 
 
@@ -462,61 +675,17 @@ def falsify_C02(ctx):
         if not r.startswith("ok "):
             continue
         R = int(r.split()[1])
-        worst = 0
         reps = list(range(6))
         mres = model([op])[0]
         if mres.startswith("ok ") and int(mres.split()[1]) > R:
             guided += 1
-            reps += [("A", a, b) for a in range(0, 41) for b in (0, 1)]
-        for rep in reps:
-            shiftA = None
-            if isinstance(rep, tuple):
-                shiftA, early, rep = rep[1], rep[2], 5
-            elif rep >= 4:
-                shiftA, early = rng.randint(0, 30), rng.randint(0, 1)
-            mode = "wcet" if rep != 3 else "random"
-            jobsets = [sim.task_jobs(t["arr"], ("sc", t["C"]), rng.randint(2, 9), rng, mode) for t in tasks]
-            if shiftA is not None:
-                jobsets = shift_task(jobsets, i, shiftA)
-                if early and len(tasks) > 1:
-                    late = max(range(len(tasks)), key=lambda ti: tasks[ti]["D"])
-                    jobsets = [[(rl + (0 if ti == late else 1), c) for rl, c in js] for ti, js in enumerate(jobsets)]
-            elif rep % 2 == 0:
-                jobsets = sync(jobsets)
-                if rep == 0 and len(tasks) > 1:
-                    # the task with the latest deadline starts one tick before everyone else
-                    late = max(range(len(tasks)), key=lambda ti: tasks[ti]["D"])
-                    jobsets = [[(rl + (0 if ti == late else 1), c) for rl, c in js] for ti, js in enumerate(jobsets)]
-            jobs = []
-            for ti, js in enumerate(jobsets):
-                for rl, c in js:
-                    t = tasks[ti]
-                    if kind == "edf_p":
-                        npset = set()
-                    elif kind == "edf_np":
-                        npset = sim.make_np(c, "np", 0, rng)
-                    elif kind == "edf_lp":
-                        npset = sim.make_np(c, "lp", t["seg"], rng, last=(t["seg"] if ti == i else None))
-                    else:
-                        npset = sim.make_np(c, "fl", t["seg"], rng)
-                    jobs.append({"rel": rl, "cost": c, "np": npset, "task": ti, "dl": rl + t["D"]})
-            if not any(j["task"] == i for j in jobs):
-                continue
-            rts = sim.simulate(jobs, lambda j: j["dl"], rng)
-            nontrivial.add((op, rep, shiftA, len(jobs)))
-            for j, rt in zip(jobs, rts):
-                if j["task"] != i:
-                    continue
-                if rt is None or rt > R:
-                    cex.append({"kind": "edf_bound_exceeded", "op": op, "impl": r, "observed_response": rt, "variant": kind,
-                                "jobs": [(x["rel"], x["cost"], x["task"], sorted(x["np"])) for x in jobs],
-                                "multiframe_not_accumulatively_monotonic": False})
-                    break
-                worst = max(worst, rt)
+            reps += ALL_OFFSETS
+        worst = schedule_search(kind, tasks, i, R, rng, reps, op, r, cex, nontrivial)
         if len(samples) < 4 and worst > 0 and len(tasks) >= 2:
             samples.append({"op": op, "bound": R, "worst_simulated_response": worst})
+    guided += guided_from_correspondence(ctx, ("edf_p", "edf_np", "edf_lp", "edf_fl"), rng, cex, nontrivial)
     return {"cases": cases, "nontrivial": len(nontrivial),
-            "rule": "random task sets x analysed task x the four EDF preemption models x arbitrary relative deadlines (also equal ones: ties everywhere); dense admissible releases (synchronous, phased, the latest-deadline task started one tick earlier), WCET and random execution times, random legal placement of non-preemptive regions, random tie-breaks among equal absolute deadlines; simulated response times vs the real bound; non-trivial = distinct (system, scenario)",
+            "rule": "random task sets x analysed task x the four EDF preemption models x arbitrary relative deadlines (also equal ones: ties everywhere); dense admissible releases (synchronous, phased, the latest-deadline task started one tick earlier, the analysed task delayed by an offset), WCET and random execution times, random legal placement of non-preemptive regions, random tie-breaks among equal absolute deadlines; simulated response times vs the real bound; when the model or a correspondence disagreement indicates a smaller real bound, every offset 0..40 is searched; non-trivial = distinct (system, scenario)",
             "counterexamples": cex, "samples": samples, "distribution": dict(dist, model_guided_searches=guided)}
 
 
@@ -1023,6 +1192,19 @@ def falsify_C20(ctx):
             rops += st_mod.stream_ros_rr(rng, 1)
         else:
             rops += st_mod.stream_ros_bw(rng, 1)
+    # workloads whose analysed (end-of-chain) callback never releases anything while another polled
+    # callback has steps: "the instance under analysis is always counted" does not hold
+    for i in range(max(m // 10, 40)):
+        cbs, sub = st_mod.gen_workload(rng)
+        if len(cbs) < 2:
+            continue
+        e = sub[-1]
+        cbs = [(rtb, (("never",) if j == e else (a if "never" not in gen.arr_str(a) else ("spo", rng.randint(3, 30), 0))), c,
+                (k if j == e or k[0] in "UP" or rng.random() < 0.3 else "U")) for j, (rtb, a, c, k) in enumerate(cbs)]
+        if not any(k[0] in "UP" for j, (_, _, _, k) in enumerate(cbs) if j != e):
+            continue
+        rops.append(f"{rng.choice(['rr', 'bw'])} {gen.supply_str(st_mod.gen_ros_supply(rng))} {st_mod.workload_str(cbs, sub)} {gen.gen_limit(rng)}")
+        dist["silent_end_of_chain"] = dist.get("silent_end_of_chain", 0) + 1
     rc, rr, rk = real3(rops)
     dist["ros"] = len(rops)
     for op, a, b, c in zip(rops, rc, rr, rk):
@@ -1048,6 +1230,12 @@ def falsify_C20(ctx):
         cex.append({"kind": "query_profile_dependent", "op": op, "checked": a[:200], "release": b[:200], "release_overflow_checks": c[:200],
                     "reasons": op_reasons(op)})
     # (4) fixed probes of the findings that cannot be part of a release-mode stream
+    f12 = "na c_abu 8 spo 37 152 5"
+    pa = [common.run_parallel(common.harness_bin(pf), [f12, "dmin c_abu 8 spo 37 152"]) for pf in ("checked", "release", "relchk")]
+    if any(not x[0].isdigit() for x in pa):
+        dm = parse_list(pa[0][1])
+        cex.append({"kind": "derived_curve_all_zero_panics_c20", "op": f12, "checked": pa[0][0], "release": pa[1][0],
+                    "release_overflow_checks": pa[2][0], "dmin_all_zero": bool(dm) and all(x == 0 for x in dm)})
     probe = real(["ccvec cc_ext 0 cc 3 1 2 3"])[0]
     if probe == "panic":
         cex.append({"kind": "wcet_extrapolate_zero", "op": "ccvec cc_ext 0 cc 3 1 2 3", "checked": probe})
@@ -1109,6 +1297,41 @@ def critical_jobs(T, J, C, horizon, t0):
     return jobs
 
 
+def superadditive_prefix(rng):
+    """a random delta-min prefix (entry i = minimum span of i+2 events) that is super-additive:
+    d[n] >= d[k] + d[n-k-1]; bursts (small entries) followed by gaps"""
+    m = rng.randint(1, 5)
+    d = []
+    cur = 0
+    for i in range(m):
+        cur += wchoice(rng, [(3, rng.randint(0, 2)), (3, rng.randint(3, 12)), (1, rng.randint(12, 30))])
+        d.append(cur)
+    if d[-1] == 0:
+        d[-1] = rng.randint(1, 9)
+    for n in range(1, m):
+        for k in range(0, n):
+            if n - k - 1 >= 0:
+                d[n] = max(d[n], d[k] + d[n - k - 1])
+    return d
+
+
+def densest_curve_jobs(d, C, horizon, t0):
+    """the densest event sequence of the auto-extrapolating curve with prefix d (event 0 at t0,
+    event i+1 at t0 + d[i], the vector continued by its super-additive closure)"""
+    d = list(d)
+    jobs = [(t0, C)]
+    i = 0
+    while True:
+        if i >= len(d):
+            n = len(d)
+            d.append(max(d[k] + d[n - k - 1] for k in range(0, n)))
+        if d[i] > horizon:
+            break
+        jobs.append((t0 + d[i], C))
+        i += 1
+    return jobs
+
+
 def falsify_C18(ctx):
     rng = random.Random(ctx["seed"] * 7919 + 18)
     n = 300 if ctx["tier"] == "quick" else 20000
@@ -1119,54 +1342,71 @@ def falsify_C18(ctx):
         tasks = []
         for _ in range(k):
             T = rng.randint(3, 30)
-            tasks.append({"T": T, "J": wchoice(rng, [(2, 0), (2, rng.randint(0, T)), (1, rng.randint(T, 2 * T))]), "C": rng.randint(1, 5)})
+            tk = {"T": T, "J": wchoice(rng, [(2, 0), (2, rng.randint(0, T)), (1, rng.randint(T, 2 * T))]), "C": rng.randint(1, 5)}
+            if rng.random() < 0.35:
+                # auto-extrapolating super-additive delta-min curve
+                tk["d"] = superadditive_prefix(rng)
+                tk["J"] = 0
+                dist["tasks_with_extrapolating_curve"] = dist.get("tasks_with_extrapolating_curve", 0) + 1
+            tasks.append(tk)
         kind = wchoice(rng, [(2, "fifo"), (2, "fp_p"), (2, "fp_np")])
         dist[kind] += 1
         i = rng.randrange(k)
         t0 = max(t["J"] for t in tasks) + 1
+        def A_(t):
+            return ("xcur " + gen.lst(t["d"])) if "d" in t else f"spo {t['T']} {t['J']}"
         if kind == "fifo":
-            op = f"fifo ragg {k}" + "".join(f" rbf spo {t['T']} {t['J']} sc {t['C']}" for t in tasks) + " 5000"
+            op = f"fifo ragg {k}" + "".join(f" rbf {A_(t)} sc {t['C']}" for t in tasks) + " 5000"
         elif kind == "fp_p":
             hp = tasks[:i]
-            op = f"fp_p rbf spo {tasks[i]['T']} {tasks[i]['J']} sc {tasks[i]['C']} {len(hp)}" + \
-                "".join(f" rbf spo {t['T']} {t['J']} sc {t['C']}" for t in hp) + " 5000"
+            op = f"fp_p rbf {A_(tasks[i])} sc {tasks[i]['C']} {len(hp)}" + \
+                "".join(f" rbf {A_(t)} sc {t['C']}" for t in hp) + " 5000"
         else:
             hp, lp = tasks[:i], tasks[i + 1:]
             B = max([t["C"] - 1 for t in lp], default=0)
-            op = f"fp_np spo {tasks[i]['T']} {tasks[i]['J']} {tasks[i]['C']} {B} {len(hp)}" + \
-                "".join(f" rbf spo {t['T']} {t['J']} sc {t['C']}" for t in hp) + " 5000"
+            op = f"fp_np {A_(tasks[i])} {tasks[i]['C']} {B} {len(hp)}" + \
+                "".join(f" rbf {A_(t)} sc {t['C']}" for t in hp) + " 5000"
         r = real([op])[0]
         if not r.startswith("ok "):
             continue
         R = int(r.split()[1])
         if R == 0:
             continue
-        horizon = 4 * R + 60
-        jobs = []
-        for ti, t in enumerate(tasks):
-            if kind != "fifo" and ti > i:
-                # lower-priority tasks: for NP the longest one starts one tick before t0
-                if kind == "fp_np" and t["C"] - 1 == max([x["C"] - 1 for x in tasks[i + 1:]], default=0) and t["C"] > 1 \
-                        and not any(j["task"] > i for j in jobs):
-                    jobs.append({"rel": t0 - 1, "cost": t["C"], "np": set(range(1, t["C"])), "task": ti})
-                continue
-            for rel, c in critical_jobs(t["T"], t["J"], t["C"], horizon, t0):
-                npset = set(range(1, c)) if kind == "fp_np" else set()
-                jobs.append({"rel": rel, "cost": c, "np": npset, "task": ti})
-        jobs.sort(key=lambda j: (j["task"], j["rel"]))
-        for idx, j in enumerate(jobs):
-            j["idx"] = idx
-        key = (lambda j: j["rel"]) if kind == "fifo" else (lambda j: (j["task"], j["idx"]))
         best = 0
-        for rep in range(3 if kind == "fifo" else 1):
-            rts = sim.simulate(jobs, key, rng, horizon=t0 + 3 * horizon)
-            for j, rt in zip(jobs, rts):
-                if rt is None or j["rel"] > t0 + R + 5:
+        exceeded = None
+        horizon = 4 * R + 60
+        # the busy window of bursty curves can be long: extend the horizon before concluding
+        # that the bound is not attained
+        for attempt in range(4):
+            jobs = []
+            for ti, t in enumerate(tasks):
+                if kind != "fifo" and ti > i:
+                    # lower-priority tasks: for NP the longest one starts one tick before t0
+                    if kind == "fp_np" and t["C"] - 1 == max([x["C"] - 1 for x in tasks[i + 1:]], default=0) and t["C"] > 1 \
+                            and not any(j["task"] > i for j in jobs):
+                        jobs.append({"rel": t0 - 1, "cost": t["C"], "np": set(range(1, t["C"])), "task": ti})
                     continue
-                if kind == "fifo" or j["task"] == i:
-                    if rt > R:
-                        cex.append({"kind": "bound_exceeded_in_tightness_witness", "op": op, "impl": r, "observed_response": rt})
-                    best = max(best, rt)
+                for rel, c in (densest_curve_jobs(t["d"], t["C"], horizon, t0) if "d" in t else critical_jobs(t["T"], t["J"], t["C"], horizon, t0)):
+                    npset = set(range(1, c)) if kind == "fp_np" else set()
+                    jobs.append({"rel": rel, "cost": c, "np": npset, "task": ti})
+            jobs.sort(key=lambda j: (j["task"], j["rel"]))
+            for idx, j in enumerate(jobs):
+                j["idx"] = idx
+            key = (lambda j: j["rel"]) if kind == "fifo" else (lambda j: (j["task"], j["idx"]))
+            for rep in range(3 if kind == "fifo" else 1):
+                rts = sim.simulate(jobs, key, rng, horizon=t0 + 3 * horizon)
+                for j, rt in zip(jobs, rts):
+                    if rt is None or j["rel"] > t0 + horizon - R - 5:
+                        continue
+                    if kind == "fifo" or j["task"] == i:
+                        if rt > R:
+                            exceeded = rt
+                        best = max(best, rt)
+            if best >= R:
+                break
+            horizon *= 4
+        if exceeded is not None:
+            cex.append({"kind": "bound_exceeded_in_tightness_witness", "op": op, "impl": r, "observed_response": exceeded})
         nontrivial.add(op)
         if best == R:
             dist["attained"] += 1
@@ -1175,5 +1415,5 @@ def falsify_C18(ctx):
         else:
             cex.append({"kind": "bound_not_attained", "op": op, "impl": r, "best_witnessed_response": best, "analysis": kind})
     return {"cases": sum(dist[k2] for k2 in ("fifo", "fp_p", "fp_np")), "nontrivial": len(nontrivial),
-            "rule": "random sporadic task sets with release jitter: the critical-instant job set (all tasks aligned, every job at its WCET; for NP-FP a longest lower-priority job started one tick earlier) is scheduled by the executable scheduler model and the largest response time of the analysed task (FIFO: of any task) is compared with the real bound: equality expected; non-trivial = distinct system with a positive bound",
+            "rule": "random task sets of sporadic tasks with release jitter and auto-extrapolating super-additive delta-min curves (bursts and gaps): the critical-instant job set (all tasks aligned, every job at its WCET; for NP-FP a longest lower-priority job started one tick earlier) is scheduled by the executable scheduler model and the largest response time of the analysed task (FIFO: of any task) is compared with the real bound: equality expected; non-trivial = distinct system with a positive bound",
             "counterexamples": cex, "samples": samples, "distribution": dist}
